@@ -60,12 +60,13 @@ def mc_plan(quick):
     """(label, constants, liveness?, expected violation or None, workers)"""
     P = []
     if quick:
-        P += [("par-budget-above-pool-3w", dict(NW=3, NP=4, BUDGET=6, INITFULL="TRUE"), False, None, 4),
-              ("par-budget-above-pool-2w", dict(NW=2, NP=4, BUDGET=6, INITFULL="TRUE"), True, None, 2),
+        P += [("par-budget-above-pool-3w-5pts", dict(NW=3, NP=5, BUDGET=7, INITFULL="TRUE"), False, None, 6),
+              ("par-budget-above-pool-3w", dict(NW=3, NP=4, BUDGET=6, INITFULL="TRUE"), True, None, 4),
+              ("par-budget-above-pool-2w", dict(NW=2, NP=4, BUDGET=6, INITFULL="TRUE"), True, None, 1),
               ("par-budget=workers", dict(NW=3, NP=5, BUDGET=3, INITFULL="TRUE"), True, None, 1),
               ("par-budget<workers", dict(NW=3, NP=5, BUDGET=2, INITFULL="TRUE"), True, None, 1),
               ("par-batch2", dict(NW=3, NP=6, BUDGET=5, BATCH=2, INITFULL="TRUE"), True, None, 1),
-              ("par-any-initial-list", dict(NW=2, NP=4, BUDGET=3, MAXCHG=1), False, None, 4),
+              ("par-any-initial-list-2chg", dict(NW=2, NP=4, BUDGET=3, MAXCHG=2), False, None, 4),
               ("par-unsigned-subtraction", dict(NW=2, NP=4, BUDGET=1, INIT0=3), True, None, 1),
               ("par-budget-zero", dict(NW=2, NP=3, BUDGET=0), True, None, 1),
               ("par-deferred-load", dict(NW=2, NP=4, BUDGET=6, EAGER=0, RNUM=1, RDEN=1, INITFULL="TRUE"), True, None, 1),
@@ -409,7 +410,7 @@ def binding_selftest(ctx, ran, wd):
     ln = [ex for kind, pairs, _ in ran if kind == "ln" for _, ex in pairs if any(e["e"] == "Checkout" for e in ex) and ex[-1]["e"] == "Final" and ex[0].get("nt", 0) > 0]
     cases = []
     if pc:
-        ex = max(pc, key=len)[:]
+        ex = min(pc, key=lambda e: (e[0].get("nw", 1) < 2, abs(len(e) - 250)))[:]     # a mid-size execution with several workers
         r0, _, _ = validate_execs("pc", [ex], os.path.join(wd, "bind-base"))
         if r0[0] is None:
             i = next(k for k, e in enumerate(ex) if e["e"] == "WDone")
@@ -427,7 +428,7 @@ def binding_selftest(ctx, ran, wd):
                 f["pairs"][0][1], f["pairs"][1][1] = f["pairs"][1][1], f["pairs"][0][1]
                 cases.append(("pc", "two values swapped in the final grid", ex[:-1] + [f]))
     if ln:
-        ex = max(ln, key=len)[:]
+        ex = min(ln, key=lambda e: abs(len(e) - 60))[:]
         r0, _, _ = validate_execs("ln", [ex], os.path.join(wd, "bind-lbase"))
         if r0[0] is None:
             i = next(k for k, e in enumerate(ex) if e["e"] == "Checkout" and e["s"] < e["n"])
@@ -512,7 +513,7 @@ def run(ctx):
 
     # ---- 1. the real code, validated by TLC (runs first: it wants a quiet machine)
     stats = new_stats()
-    n_par, n_seq, n_ln = (110, 20, 30) if quick else (3200, 500, 700)
+    n_par, n_seq, n_ln = (240, 40, 60) if quick else (3600, 600, 800)
     ran = real_runs(ctx, drv, wd, int(n_par * scale), int(n_seq * scale), int(n_ln * scale), 10 if quick else 40, stats)
     ctx.states += stats["dist"]
     ctx.transitions += stats["gen"]
